@@ -2,6 +2,7 @@
 // detail::cache<T,N> is instantiated directly from the current header in both configurations; in the shared (no
 // thread-local) configuration its atomics are re-pointed at an instrumented look-alike whose every operation is a
 // scheduling point of a harness-owned scheduler (real threads passing a baton: exactly one is runnable).
+#define HARNESS_MAIN_THREAD_CASES 1  // this harness owns its threads and per-thread baselines
 #include <atomic>
 #include <cstdint>
 #include <cstddef>
